@@ -39,6 +39,9 @@ Sweep ==
     /\ viol' = IF Ev.match = "void" THEN {}
                ELSE (IF Ev.fetch = "" /\ Ev.match \notin {"v1", "v2"} THEN {"fetch-installed-incomplete-tree"} ELSE {})
                     \cup (IF Ev.store = "" /\ ~(Ev.fetch = "" /\ Ev.match = "v2") THEN {"store-success-not-visible"} ELSE {})
+                    \* afterwards the earlier content (v1) is stored again, alone: a Store that reports success is what the next Fetch returns
+                    \cup (IF Ev.matchAgain # "void" /\ Ev.storeAgain = "" /\ ~(Ev.fetchAgain = "" /\ Ev.matchAgain = "v1") THEN {"store-success-not-visible"} ELSE {})
+                    \cup (IF Ev.matchAgain # "void" /\ Ev.fetchAgain = "" /\ Ev.matchAgain \notin {"v1", "v2"} THEN {"fetch-installed-incomplete-tree"} ELSE {})
     /\ UNCHANGED <<passed, lastStore, storing, overlap, expect, lockVars>>
 
 Begin == /\ Consume /\ Ev.op = "Begin" /\ (traceId # 0 => Verdict)
